@@ -353,6 +353,10 @@ func opaqueDoc(t *rapid.T) map[string]interface{} {
 		d["label"] = "hello"
 		d["nested"] = map[string]interface{}{"a": []interface{}{"x", float64(2)}}
 	}
+	if rapid.IntRange(0, 4).Draw(t, "opaqueEmptySection") == 0 {
+		// a section given as an empty list is the same document as one without that section
+		d[rapid.SampledFrom([]string{"service", "publicKey"}).Draw(t, "emptySection")] = []interface{}{}
+	}
 	if rapid.IntRange(0, 2).Draw(t, "opaqueAwkward") == 0 {
 		// any JSON member name is a legitimate member of an opaque document, also one that needs escaping as a JSON
 		// string or as a JSON pointer token, or that merely starts like the name of a protected section
@@ -363,7 +367,7 @@ func opaqueDoc(t *rapid.T) map[string]interface{} {
 }
 
 func TestRoundTrip(t *testing.T) {
-	ev.Rule(chk, "rapid: per DID a create and 0-4 further operations (update / recover / deactivate), all built with client.New*Request from valid inputs: patch lists over all eight actions or opaque documents (create / recover; one in three with a member whose name needs JSON-string or JSON-pointer escaping or starts like a protected section's name), anchor origins of several JSON types, windows (none / from / from+until), optional nonce and kid, each operation signed with the library's ecsigner / edsigner over keys of all 5 types, every fourth EC key having a public coordinate with a leading zero byte (JWK via pubkey.GetPublicKeyJWK, commitments via commitment.GetCommitment), both hash algorithms - one DID in three migrates, i.e. later requests are built with the other algorithm (next commitments, delta hash) while their reveal value opens a commitment made under the first one; oracle: Parse accepts under a protocol enabling exactly the used algorithms; ParseOperation + ParseSignedDataFor* return exactly the supplied suffix, commitments, patches (JSON-equal), reveal value, key, anchor origin and window; suffix == independent hash of the suffix data; after anchoring inside the window Resolve shows exactly the kit/refdoc prediction (document, commitments, deactivated); non-trivial = key type other than P-256, or sha2-512, or a window, or >= 3 patches")
+	ev.Rule(chk, "rapid: per DID a create and 0-4 further operations (update / recover / deactivate), all built with client.New*Request from valid inputs: patch lists over all eight actions or opaque documents (create / recover; one in five with a section given as an empty list; one in three with a member whose name needs JSON-string or JSON-pointer escaping or starts like a protected section's name), anchor origins of several JSON types, windows (none / from / from+until), optional nonce and kid, each operation signed with the library's ecsigner / edsigner over keys of all 5 types, every fourth EC key having a public coordinate with a leading zero byte (JWK via pubkey.GetPublicKeyJWK, commitments via commitment.GetCommitment), both hash algorithms - one DID in three migrates, i.e. later requests are built with the other algorithm (next commitments, delta hash) while their reveal value opens a commitment made under the first one; oracle: Parse accepts under a protocol enabling exactly the used algorithms; ParseOperation + ParseSignedDataFor* return exactly the supplied suffix, commitments, patches (JSON-equal), reveal value, key, anchor origin and window; suffix == independent hash of the suffix data; after anchoring inside the window Resolve shows exactly the kit/refdoc prediction (document, commitments, deactivated); non-trivial = key type other than P-256, or sha2-512, or a window, or >= 3 patches")
 	ev.Rapid(t, chk, 300, 3000, func(t *rapid.T) {
 		code := rapid.SampledFrom([]uint64{asm.SHA256, asm.SHA512}).Draw(t, "hash")
 		c := &Case{Code: code, TimeDelta: uint64(rapid.SampledFrom([]int{600, 7207}).Draw(t, "timeDelta"))}
